@@ -631,7 +631,8 @@ void * hwloc_distances_add_create(hwloc_topology_t topology,
   }
   if ((kind & ~HWLOC_DISTANCES_KIND_ALL)
       || hwloc_weight_long(kind & HWLOC_DISTANCES_KIND_FROM_ALL) > 1
-      || hwloc_weight_long(kind & HWLOC_DISTANCES_KIND_VALUE_ALL) > 1) {
+      || hwloc_weight_long(kind & HWLOC_DISTANCES_KIND_VALUE_ALL) != 1) {
+    /* exactly one kind of value is required (XML import rejects structures without kind) */
     errno = EINVAL;
     return NULL;
   }
